@@ -18,6 +18,8 @@ mod run;
 mod drv_random;
 mod drv_replay;
 mod drv_sat;
+mod gen_ticket;
+mod drv_ticket;
 mod drv_real;
 mod drv_realobs;
 
@@ -94,6 +96,14 @@ fn main()
                 "parse" => drv_sat::parse_cases(n, random, seed),
                 _ => drv_sat::persist_cases(n, seed),
             };
+            run::write_lines(&out, &recs);
+            println!("{}", serde_json::json!({"records" : recs.len()}));
+        },
+        "ticket" =>
+        {
+            let out = arg(&args, "--out", "records.ndjson");
+            let seed : u64 = arg(&args, "--seed", "1").parse().unwrap();
+            let recs = drv_ticket::ticket_cases(arg(&args, "--thorough", "0") == "1", seed);
             run::write_lines(&out, &recs);
             println!("{}", serde_json::json!({"records" : recs.len()}));
         },
